@@ -13,7 +13,14 @@
        UPanic   = "makeslice: len out of range"  (a recoverable Go panic; the
                   blanket recover() of UnmarshalConst swallows it)
        UFatal r = a [make] of r bytes that exceeds the memory the process can
-                  get: "fatal error: runtime: out of memory", not recoverable. *)
+                  get: "fatal error: runtime: out of memory", not recoverable.
+     Every allocation the reader makes is kept in the model as a [mk] step, so
+     that "never panics, never dies" is a theorem (Proofs.v) and not a
+     property of the result type.
+   * The reader is the REPAIRED one (lengths are validated and budget is
+     consumed before anything is allocated; memory follows what the input
+     delivers; negative counts are a corrupt chunk; a budget that reaches 0
+     is exhausted, not unlimited). *)
 From Coq Require Import ZArith List Bool.
 Import ListNotations.
 Open Scope Z_scope.
@@ -84,7 +91,7 @@ Definition marshal (k : cst) : bytes := marshalPrefix ++ marshal_cst k.
 (* ------------------------------------------------------------------ *)
 (* breader                                                              *)
 
-Inductive err := EEof | EUnexpectedEof | EInvalidType | EPrefix.
+Inductive err := EEof | EUnexpectedEof | EInvalidType | EPrefix | EInvalidLength | EInvalidCode.
 
 Inductive ures (A : Type) : Type :=
 | UOk (a : A) (inp : bytes) (b : Z)   (* value, unread input, budget left *)
@@ -96,12 +103,15 @@ Inductive ures (A : Type) : Type :=
 Arguments UOk {A}. Arguments UErr {A}. Arguments UBudget {A}.
 Arguments UPanic {A}. Arguments UFatal {A}. Arguments UOutOfFuel {A}.
 
-Definition two64 := 18446744073709551616.
-Definition u64 (v : Z) := v mod two64.
+Definition ubind {A B} (r : ures A) (f : A -> bytes -> Z -> ures B) : ures B :=
+  match r with
+  | UOk a i b => f a i b
+  | UErr e b => UErr e b
+  | UBudget => UBudget | UPanic => UPanic | UFatal q => UFatal q | UOutOfFuel => UOutOfFuel
+  end.
 
-(* breader.consumeBudget: budget 0 means unlimited *)
-Definition consume (b amount : Z) : option Z :=
-  if b =? 0 then Some 0 else if b <? amount then None else Some (b - amount).
+Definition two64 := 18446744073709551616.
+Definition maxInt64 := 9223372036854775807.
 
 (* make([]T, n) with sizeof(T) = elt.  maxAlloc on linux/amd64 is 2^48;
    lim is the number of bytes one allocation can really get. *)
@@ -129,23 +139,12 @@ Fixpoint take (inp : bytes) (n : Z) : option (bytes * bytes) :=
               end
   end.
 
-(* io.ReadFull of n bytes: EOF when nothing could be read, ErrUnexpectedEOF
-   on a short read; reading 0 bytes succeeds *)
+(* io.ReadFull / io.CopyN of n bytes: EOF when nothing could be read,
+   ErrUnexpectedEOF on a short read; reading 0 bytes succeeds *)
 Definition readfull (inp : bytes) (n : Z) : (bytes * bytes) + err :=
   match take inp n with
   | Some p => inl p
   | None => inr (match inp with [] => EEof | _ => EUnexpectedEof end)
-  end.
-
-(* bytes.Buffer.Read into a buffer of n>0 bytes when the input is not empty:
-   copies what is there, leaves the rest of the buffer zero, no error *)
-Fixpoint take_pad (inp : bytes) (n : nat) : bytes * bytes :=
-  match n with
-  | O => ([], inp)
-  | S m => match inp with
-           | [] => (repeat 0 n, [])
-           | x :: r => let (a, rest) := take_pad r m in (x :: a, rest)
-           end
   end.
 
 Fixpoint chunks4 (l : bytes) : list Z :=
@@ -154,10 +153,25 @@ Fixpoint chunks4 (l : bytes) : list Z :=
   | _ => []
   end.
 
+Definition SZ_OP := 4.
+Definition SZ_LINE := 4.
+Definition SZ_VALUE := 24.
+Definition SZ_STRING := 16.
+Definition maxEagerRead := 65536.
+
 Section Reader.
 Variable lim : Z.
+(* breader.unlimited: there is no budget at all (UnmarshalConst was given 0) *)
+Variable unl : bool.
 
-(* r.read(8, &x) for a fixed-width integer of n bytes *)
+(* breader.consumeBudget *)
+Definition consume (b amount : Z) : option Z :=
+  if unl then Some b else if b <? amount then None else Some (b - amount).
+
+Definition with_mk {A} (n elt : Z) (k : ures A) : ures A :=
+  match mk lim n elt with MkPanic => UPanic | MkFatal r => UFatal r | MkOk => k end.
+
+(* r.read(n, &x) for one fixed-width integer of n bytes: budget, then io.ReadFull *)
 Definition rd_fixed (n : Z) (inp : bytes) (b : Z) : ures Z :=
   match consume b n with
   | None => UBudget
@@ -174,157 +188,85 @@ Definition rd_raw (n : Z) (inp : bytes) (b : Z) : ures Z :=
   | inr e => UErr e b
   end.
 
+(* breader.readBytes(n, itemSize): length checks, budget, then memory in
+   proportion to what the reader delivers: at most maxEagerRead bytes are
+   allocated up front, beyond that a bytes.Buffer grows with the data (its
+   capacity stays below twice what was read plus bytes.MinRead). *)
+Definition rd_bytes (n item : Z) (inp : bytes) (b : Z) : ures bytes :=
+  if n <? 0 then UErr EInvalidLength b
+  else if maxInt64 / item <? n then UErr EInvalidLength b
+  else
+    let total := n * item in
+    match consume b total with
+    | None => UBudget
+    | Some b' =>
+        if total <=? maxEagerRead then
+          with_mk total 1
+            (match readfull inp total with
+             | inl (a, rest) => UOk a rest b'
+             | inr e => UErr e b'
+             end)
+        else
+          match readfull inp total with
+          | inl (a, rest) => with_mk (2 * total + 512) 1 (UOk a rest b')
+          | inr e => with_mk (2 * zlen inp + 512) 1 (UErr e b')
+          end
+    end.
+
 (* breader.readString *)
 Definition rd_str (inp : bytes) (b : Z) : ures bytes :=
-  match rd_fixed 8 inp b with
-  | UOk v inp1 b1 =>
-      let sl := signed 64 v in
-      match consume b1 (u64 sl) with
-      | None => UBudget
-      | Some b2 =>
-          match mk lim sl 1 with
-          | MkPanic => UPanic
-          | MkFatal r => UFatal r
-          | MkOk =>
-              if sl =? 0 then UOk [] inp1 b2
-              else match inp1 with
-                   | [] => UErr EEof b2
-                   | _ => let (a, rest) := take_pad inp1 (Z.to_nat sl) in UOk a rest b2
-                   end
-          end
-      end
-  | UErr e b' => UErr e b'
-  | UBudget => UBudget | UPanic => UPanic | UFatal r => UFatal r | UOutOfFuel => UOutOfFuel
-  end.
+  ubind (rd_fixed 8 inp b) (fun v inp1 b1 => rd_bytes (signed 64 v) 1 inp1 b1).
 
-(* after r.err is set inside readCode the remaining make calls still run,
-   with the stale length; [stale] lists their element sizes *)
-Fixpoint stale_makes {A} (sz : Z) (elts : list Z) (e : err) (b : Z) : ures A :=
-  match elts with
-  | [] => UErr e b
-  | elt :: r => match mk lim sz elt with
-                | MkPanic => UPanic
-                | MkFatal q => UFatal q
-                | MkOk => stale_makes sz r e b
-                end
-  end.
+(* a length-prefixed array of 4-byte words: r.read(8, &sz) has happened, sz = n;
+   readBytes, then make([]T, n) once the bytes are there *)
+Definition rd_words (n : Z) (inp : bytes) (b : Z) : ures (list Z) :=
+  ubind (rd_bytes n 4 inp b) (fun raw inp1 b1 => with_mk n 4 (UOk (chunks4 raw) inp1 b1)).
 
-Definition SZ_OP := 4.
-Definition SZ_LINE := 4.
-Definition SZ_VALUE := 24.
-Definition SZ_STRING := 16.
-
-(* n successive reads with the reader rd *)
-Fixpoint rd_many {A} (rd : bytes -> Z -> ures A) (n : nat) (inp : bytes) (b : Z) : ures (list A) :=
+(* for i := 0; i < n && r.err == nil; i++ { xs = append(xs, rd()) }: the slice
+   is grown by append, to a capacity below twice the number of items read *)
+Fixpoint rd_many {A} (rd : bytes -> Z -> ures A) (elt : Z) (n : nat) (have : Z) (inp : bytes) (b : Z) : ures (list A) :=
   match n with
   | O => UOk [] inp b
-  | S m => match rd inp b with
-           | UOk a inp1 b1 =>
-               match rd_many rd m inp1 b1 with
-               | UOk l inp2 b2 => UOk (a :: l) inp2 b2
-               | UErr e b' => UErr e b'
-               | UBudget => UBudget | UPanic => UPanic | UFatal r => UFatal r | UOutOfFuel => UOutOfFuel
-               end
-           | UErr e b' => UErr e b'
-           | UBudget => UBudget | UPanic => UPanic | UFatal r => UFatal r | UOutOfFuel => UOutOfFuel
-           end
+  | S m =>
+      ubind (rd inp b) (fun a inp1 b1 =>
+      with_mk (2 * (have + 1)) elt
+        (ubind (rd_many rd elt m (have + 1) inp1 b1) (fun l inp2 b2 => UOk (a :: l) inp2 b2)))
   end.
+
+(* the loop bound is the announced length, but the loop stops at the first
+   error, which comes at the latest when the input is exhausted: announcing more
+   items than there are bytes left cannot succeed *)
+Definition loop_count (n : Z) (inp : bytes) : nat := Z.to_nat (Z.min n (zlen inp + 1)).
 
 (* breader.readCode, given the reader for one constant *)
 Definition rd_code (rdk : bytes -> Z -> ures cst) (inp : bytes) (b : Z) : ures cst :=
   match consume b 8 with None => UBudget | Some b0 =>
-  match rd_str inp b0 with
-  | UOk src inp1 b1 =>
-  match rd_str inp1 b1 with
-  | UOk nm inp2 b2 =>
-  match rd_raw 8 inp2 b2 with
-  | UOk v3 inp3 b3 =>
-    let nops := signed 64 v3 in
-    match mk lim nops SZ_OP with
-    | MkPanic => UPanic | MkFatal r => UFatal r
-    | MkOk =>
-    match consume b3 (u64 (4 * u64 nops + 8)) with None => UBudget | Some b4 =>
-    match readfull inp3 (4 * nops) with
-    | inr e => stale_makes nops [SZ_LINE; SZ_VALUE; SZ_STRING] e b4
-    | inl (opb, inp4) =>
-    match rd_raw 8 inp4 b4 with
-    | UOk v5 inp5 b5 =>
-      let nlines := signed 64 v5 in
-      match mk lim nlines SZ_LINE with
-      | MkPanic => UPanic | MkFatal r => UFatal r
-      | MkOk =>
-      match consume b5 (u64 (4 * u64 nlines + 8)) with None => UBudget | Some b6 =>
-      match readfull inp5 (4 * nlines) with
-      | inr e => stale_makes nlines [SZ_VALUE; SZ_STRING] e b6
-      | inl (lnb, inp6) =>
-      match rd_raw 8 inp6 b6 with
-      | UOk v7 inp7 b7 =>
-        let nk := signed 64 v7 in
-        match mk lim nk SZ_VALUE with
-        | MkPanic => UPanic | MkFatal r => UFatal r
-        | MkOk =>
-        match rd_many rdk (Z.to_nat nk) inp7 b7 with
-        | UOk ks inp8 b8 =>
-          match consume b8 (2 + 2 + 2 + 8) with None => UBudget | Some b9 =>
-          match rd_raw 2 inp8 b9 with
-          | UOk uc inp9 b10 =>
-          match rd_raw 2 inp9 b10 with
-          | UOk rc inp10 b11 =>
-          match rd_raw 2 inp10 b11 with
-          | UOk cc inp11 b12 =>
-          match rd_raw 8 inp11 b12 with
-          | UOk v12 inp12 b13 =>
-            let nup := signed 64 v12 in
-            match mk lim nup SZ_STRING with
-            | MkPanic => UPanic | MkFatal r => UFatal r
-            | MkOk =>
-            match rd_many rd_str (Z.to_nat nup) inp12 b13 with
-            | UOk ups inp13 b14 =>
-                UOk (KCode (mkHead src nm (chunks4 opb) (map (signed 32) (chunks4 lnb))
-                                   (signed 16 uc) (signed 16 rc) (signed 16 cc) ups) ks)
-                    inp13 b14
-            | UErr e b' => UErr e b'
-            | UBudget => UBudget | UPanic => UPanic | UFatal r => UFatal r | UOutOfFuel => UOutOfFuel
-            end
-            end
-          | UErr e b' => UErr e b'
-          | UBudget => UBudget | UPanic => UPanic | UFatal r => UFatal r | UOutOfFuel => UOutOfFuel
-          end
-          | UErr e b' => UErr e b'
-          | UBudget => UBudget | UPanic => UPanic | UFatal r => UFatal r | UOutOfFuel => UOutOfFuel
-          end
-          | UErr e b' => UErr e b'
-          | UBudget => UBudget | UPanic => UPanic | UFatal r => UFatal r | UOutOfFuel => UOutOfFuel
-          end
-          | UErr e b' => UErr e b'
-          | UBudget => UBudget | UPanic => UPanic | UFatal r => UFatal r | UOutOfFuel => UOutOfFuel
-          end
-          end
-        | UErr e b' => UErr e b'
-        | UBudget => UBudget | UPanic => UPanic | UFatal r => UFatal r | UOutOfFuel => UOutOfFuel
-        end
-        end
-      | UErr e b' => stale_makes nlines [SZ_VALUE; SZ_STRING] e b'
-      | UBudget => UBudget | UPanic => UPanic | UFatal r => UFatal r | UOutOfFuel => UOutOfFuel
-      end
-      end
-      end
-      end
-    | UErr e b' => stale_makes nops [SZ_LINE; SZ_VALUE; SZ_STRING] e b'
-    | UBudget => UBudget | UPanic => UPanic | UFatal r => UFatal r | UOutOfFuel => UOutOfFuel
-    end
-    end
-    end
-    end
-  | UErr e b' => UErr e b'
-  | UBudget => UBudget | UPanic => UPanic | UFatal r => UFatal r | UOutOfFuel => UOutOfFuel
-  end
-  | UErr e b' => UErr e b'
-  | UBudget => UBudget | UPanic => UPanic | UFatal r => UFatal r | UOutOfFuel => UOutOfFuel
-  end
-  | UErr e b' => UErr e b'
-  | UBudget => UBudget | UPanic => UPanic | UFatal r => UFatal r | UOutOfFuel => UOutOfFuel
-  end
+  ubind (rd_str inp b0) (fun src inp1 b1 =>
+  ubind (rd_str inp1 b1) (fun nm inp2 b2 =>
+  ubind (rd_raw 8 inp2 b2) (fun v3 inp3 b3 =>
+  ubind (rd_words (signed 64 v3) inp3 b3) (fun opw inp4 b4 =>
+  ubind (rd_fixed 8 inp4 b4) (fun v5 inp5 b5 =>
+  ubind (rd_words (signed 64 v5) inp5 b5) (fun lnw inp6 b6 =>
+  ubind (rd_fixed 8 inp6 b6) (fun v7 inp7 b7 =>
+  let nk := signed 64 v7 in
+  if nk <? 0 then UErr EInvalidLength b7 else
+  ubind (rd_many rdk SZ_VALUE (loop_count nk inp7) 0 inp7 b7) (fun ks inp8 b8 =>
+  match consume b8 (2 + 2 + 2 + 8) with None => UBudget | Some b9 =>
+  ubind (rd_raw 2 inp8 b9) (fun uc inp9 b10 =>
+  ubind (rd_raw 2 inp9 b10) (fun rc inp10 b11 =>
+  ubind (rd_raw 2 inp10 b11) (fun cc inp11 b12 =>
+  ubind (rd_raw 8 inp11 b12) (fun v12 inp12 b13 =>
+  if (signed 16 uc <? 0) || (signed 16 rc <? 0) || (signed 16 cc <? 0) then UErr EInvalidCode b13 else
+  let nup := signed 64 v12 in
+  if nup <? 0 then UErr EInvalidLength b13 else
+  ubind (rd_many rd_str SZ_STRING (loop_count nup inp12) 0 inp12 b13) (fun ups inp13 b14 =>
+  if Z.of_nat (length ks) <? nk then UOutOfFuel
+  else if Z.of_nat (length ups) <? nup then UOutOfFuel
+  else
+  UOk (KCode (mkHead src nm opw (map (signed 32) lnw)
+                     (signed 16 uc) (signed 16 rc) (signed 16 cc) ups) ks)
+      inp13 b14)))))
+  end))))))))
   end.
 
 (* breader.readConst; fuel bounds the nesting depth *)
@@ -332,42 +274,26 @@ Fixpoint rd_cst (fuel : nat) (inp : bytes) (b : Z) : ures cst :=
   match fuel with
   | O => UOutOfFuel
   | S f =>
-    match rd_fixed 1 inp b with
-    | UOk tp inp1 b1 =>
-        if tp =? T_INT then
-          match rd_fixed 8 inp1 b1 with
-          | UOk v i2 b2 => UOk (KInt (signed 64 v)) i2 b2
-          | UErr e b' => UErr e b'
-          | UBudget => UBudget | UPanic => UPanic | UFatal r => UFatal r | UOutOfFuel => UOutOfFuel
-          end
-        else if tp =? T_FLOAT then
-          match rd_fixed 8 inp1 b1 with
-          | UOk v i2 b2 => UOk (KFlt v) i2 b2
-          | UErr e b' => UErr e b'
-          | UBudget => UBudget | UPanic => UPanic | UFatal r => UFatal r | UOutOfFuel => UOutOfFuel
-          end
-        else if tp =? T_STRING then
-          match rd_str inp1 b1 with
-          | UOk s i2 b2 => UOk (KStr s) i2 b2
-          | UErr e b' => UErr e b'
-          | UBudget => UBudget | UPanic => UPanic | UFatal r => UFatal r | UOutOfFuel => UOutOfFuel
-          end
-        else if tp =? T_CODE then rd_code (rd_cst f) inp1 b1
-        else UErr EInvalidType b1
-    | UErr e b' => UErr e b'
-    | UBudget => UBudget | UPanic => UPanic | UFatal r => UFatal r | UOutOfFuel => UOutOfFuel
-    end
-  end.
-
-(* UnmarshalConst: r.Read(pfx) on a bytes.Buffer copies what is there; any
-   mismatch (including a short input) is ErrInvalidMarshalPrefix *)
-Definition unmarshal (budget : Z) (inp : bytes) : ures cst :=
-  match inp with
-  | 6 :: 0 :: 4 :: rest => rd_cst (S (length rest)) rest budget
-  | _ => UErr EPrefix budget
+    ubind (rd_fixed 1 inp b) (fun tp inp1 b1 =>
+      if tp =? T_INT then ubind (rd_fixed 8 inp1 b1) (fun v i2 b2 => UOk (KInt (signed 64 v)) i2 b2)
+      else if tp =? T_FLOAT then ubind (rd_fixed 8 inp1 b1) (fun v i2 b2 => UOk (KFlt v) i2 b2)
+      else if tp =? T_STRING then ubind (rd_str inp1 b1) (fun s i2 b2 => UOk (KStr s) i2 b2)
+      else if tp =? T_CODE then rd_code (rd_cst f) inp1 b1
+      else UErr EInvalidType b1)
   end.
 
 End Reader.
+
+(* UnmarshalConst: r.Read(pfx) on a bytes.Buffer copies what is there; any
+   mismatch (including a short input) is ErrInvalidMarshalPrefix *)
+Definition unmarshal (lim budget : Z) (inp : bytes) : ures cst :=
+  match inp with
+  | p0 :: p1 :: p2 :: rest =>
+      if (p0 =? 6) && (p1 =? 0) && (p2 =? 4)
+      then rd_cst lim (budget =? 0) (S (length rest)) rest budget
+      else UErr EPrefix budget
+  | _ => UErr EPrefix budget
+  end.
 
 (* What UnmarshalConst returns to its caller: (value or nil, used, error). *)
 Inductive goret :=
@@ -409,4 +335,20 @@ Definition load_binary (lim budget : Z) (inp : bytes) : lres :=
   | GErr e _ => LErr e
   | GCrash r => LCrash r
   | GOutOfFuel => LOutOfFuel
+  end.
+
+(* ------------------------------------------------------------------ *)
+(* bwriter.consumeBudget amounts: what MarshalConst charges for k        *)
+
+Fixpoint mcharge (k : cst) : Z :=
+  match k with
+  | KInt _ => 1 + 8
+  | KFlt _ => 1 + 8
+  | KStr s => 1 + 0 + (8 + zlen s)
+  | KCode h ks =>
+      (1 + 0 + 0 + 8 + 8 + 8)
+      + (8 + zlen (source h)) + (8 + zlen (name h))
+      + fold_right (fun k acc => mcharge k + acc) 0 ks
+      + (2 + 2 + 2 + 8)
+      + fold_right (fun s acc => (8 + zlen s) + acc) 0 (upnames h)
   end.
